@@ -12,14 +12,17 @@ byte (and per second byte after the 0xCB prefix), what the arm returns:
 
 `decReads` is the number of bytes *after* the first one that the arm indexes (`instructions[1]` = 1,
 `read_u16(&instructions[1..])` = 2); the slot of the prefix byte in the unprefixed tables holds 0 and is never
-used through `instrLen`/`instrClocks`.
+used through `instrLen`/`instrClocks`.  Each table is emitted as a balanced if-then-else tree over the byte
+(the flat 16x16 table is repeated in its doc comment): the Lean kernel evaluates a tree lookup in microseconds,
+whereas `Array.getD`/`List.getD`/a 256-arm `match` on a literal table cost it about 10 ms or more per lookup (measured).
 
 FAIL CLOSED: every arm must be understood completely (pattern, every `let`, the returned tuple).  Anything else
 -> message on stderr and exit status 1; nothing is written.  The output is deterministic and the file is only
 rewritten when its content changes (so `lake` does not rebuild needlessly).
 
-Structure (for extension with op templates): `parse_function` returns a list of `Arm` objects that keep the full
-right-hand side (`lets`, `op_src`), not just the numbers; `emit_lean` is the only place that decides what is written.
+Structure (for extension with op templates): `parse_function` returns `(byte -> Arm, wildcard Arm or None)`; an `Arm`
+keeps the full right-hand side (`lets`, `op_src`), not just the numbers; `build_tables` turns the arms into columns and
+`emit_lean` is the only place that decides what is written.  `--src`/`--out` exist for testing the fail-closed paths.
 """
 import os
 import re
@@ -350,7 +353,7 @@ def lean_rows(xs):
 
 def lean_tree(xs, lo, hi, indent):
     """balanced decision tree over [lo, hi): 8 comparisons per lookup, which the Lean kernel evaluates in
-    microseconds (a 256-element `Array.getD`/`List.getD`/`match` costs it 10-60 ms per lookup, measured)."""
+    microseconds (a 256-element `Array.getD`/`List.getD`/`match` costs it about 10 ms or more per lookup, measured)."""
     if all(x == xs[lo] for x in xs[lo:hi]):
         return "%d" % xs[lo]
     mid = (lo + hi) // 2
